@@ -82,7 +82,32 @@ def _dump_unknown(pc, g):
         f.write('; goal conjunct: %s\n' % str(g).replace('\n', ' ')[:2000] + txt)
 
 
+_MEMO = {}      # (ids of the hypotheses, id of the goal, flags) -> (terms kept alive, Verdict)
+
+
 def discharge(pc, goal, want_smt2=False, all_backends=False, scale=1):
+    """Check validity of  And(pc) => goal.  The paths of one function share their prefixes, and every path
+    re-emits the obligations of its prefix: an obligation with the very same hypotheses and the very same goal
+    (hash-consed z3 terms: same ids) as one that has been decided is not sent to the solvers again."""
+    if os.environ.get('PYVC_NO_DISCHARGE_MEMO'):
+        return _discharge0(pc, goal, want_smt2, all_backends, scale)
+    try:
+        key = (frozenset(t.get_id() for t in pc), goal.get_id(), bool(all_backends), scale)
+    except AttributeError:
+        return _discharge0(pc, goal, want_smt2, all_backends, scale)
+    hit = _MEMO.get(key)
+    if hit is not None and not (want_smt2 and hit[1].smt2 is None):
+        v0 = hit[1]
+        return Verdict(v0.status, v0.backend, 0.0, v0.model, v0.smt2, v0.reason)
+    v = _discharge0(pc, goal, want_smt2, all_backends, scale)
+    if v.status in ('unsat', 'sat'):
+        if len(_MEMO) > 20000:
+            _MEMO.clear()
+        _MEMO[key] = ((list(pc), goal), v)      # the terms are kept alive: their ids are not reused
+    return v
+
+
+def _discharge0(pc, goal, want_smt2=False, all_backends=False, scale=1):
     """Check validity of  And(pc) => goal.  A conjunctive goal is proved conjunct by conjunct (each query
     is much easier for the string solvers than the conjunction); the first conjunct that is not proved
     decides the verdict."""
